@@ -143,7 +143,7 @@ def buffered_impl(ctx, rule, F, cfg):
             tag = "/".join(str(x) for x in rv[:2])
             if rv[:1] == ("Err",) and has_subterm(r, lambda s: s[0] == "call" and name_is(s[2], "from_residual")):
                 continue
-            if r[0] == "call" and name_is(r[2], "from_residual"):
+            if (r[0] == "call" and name_is(r[2], "from_residual")) or is_error_exit(p):
                 continue  # `?` on peek_one in read_bang_element: error before anything is accounted (documented: position not updated)
             if len(pos) > 1:
                 ctx.ob(rule, site + "[%s]:one-advance" % tag, False, "the position is advanced %d times on one exit" % len(pos), config=cfg)
